@@ -18,7 +18,7 @@ RULE = (
     "content (the same network twice, networks with identical lookup tables (TANH/LOGISTIC with equal quantisation), identical weights, equal tensor names) with an "
     "option set from a small pool (different accelerators / allocators / optimise) through main, convert or convert_bytes; after every step the produced model bytes "
     "and outcome must equal those of a pristine single-shot compile of the same (model, options, entry) in a forked fresh process. hash seeds: pool networks compiled "
-    "in fresh interpreter processes under PYTHONHASHSEED 0..5 and twice under the same seed must give one digest. "
+    "in fresh interpreter processes under three (quick) or four (thorough, one repeated) PYTHONHASHSEED values must give one digest. "
     "non-trivial = history with >=2 successful compilations of which a later one shares a LUT / weights / the whole network with an earlier one, or mixes entry points or "
     "accelerators; distinct = hash of the history."
 )
@@ -233,13 +233,13 @@ def hashseeds(ctx, arg, rec):
     from hypothesis import strategies as st
 
     shard, n = arg
-    strat = st.builds(lambda spec, cfg, a: dict(kind="hashseed", spec=spec, cfg=cfg, hashseeds=[0, a, a, a + 1, 12345]), tflgen.network("npu", max_ops=5, big=False), tflgen.config(), st.integers(1, 1000))
+    strat = st.builds(lambda spec, cfg, a: dict(kind="hashseed", spec=spec, cfg=cfg, hashseeds=[0, a, a, a + 1] if not ctx.quick else [0, a, a + 7]), tflgen.network("wide", max_ops=7, big=False), tflgen.config(), st.integers(1, 1000))
     run_hypothesis(rec, strat, oracle_hashseed, n, sub_seed(ctx.seed, PROPERTY, "hs", shard))
 
 
 def parts(ctx):
     q = ctx.quick
-    return [Part("hist%02d" % i, histories, (i, 8 if q else 320)) for i in range(12)] + [Part("hashseed%d" % i, hashseeds, (i, 3 if q else 80)) for i in range(4)]
+    return [Part("hist%02d" % i, histories, (i, 8 if q else 320)) for i in range(12)] + [Part("hashseed%d" % i, hashseeds, (i, 6 if q else 80)) for i in range(4)]
 
 
 def replay(ctx, case):
